@@ -72,6 +72,61 @@ CLAIMS = {
              "tied by correspondence (UF x RR x DI, SD products, UF11 product, 6000+ addresses x both lengths through the Annex 10 uplink AP encoder).",
         note="uplink_icao_roundtrip theorem depends on the C01 algebra (in progress).",
         design="8 C18", technique="Lean 4 proof + product correspondence"),
+    "C03": dict(
+        text="Model of bds05.airborne_position over exact rationals with NL as a parameter; theorems (in progress, see Properties/C03.lean): "
+             "same-parity pairs are rejected, argument order is irrelevant, global latitude/longitude recovery for every NL function inside the zone-relative boxes. "
+             "Tie: exact-rational DO-260B encoder (also implemented in Lean as Spec.cprEncode and compared with the Python one) x NL transitions, poles, equator, "
+             "meridians, the 87-degree band, random positions x <=1 NM displacements x time orders x argument orders x type codes.",
+        note="'<= 1 NM apart => inside the boxes' is spherical geometry, not a theorem (trusted-base item 6 of DESIGN.md).",
+        design="8 C03, 11.1", technique="Lean 4 proof (floor/mod algebra over Q) + exact-rational correspondence"),
+    "C04": dict(
+        text="Theorems (Properties/C04.lean): type-code routing; local decode returns exactly the carried position for every reference in the open half-zone box "
+             "(latitude incl. the YZ=2^17 wrap, longitude modulo the zone count), hence stability; one proof for airborne (360) and surface (90). "
+             "Tie: reference offsets up to (1-1e-9) of the half zone per axis for both parities and both families.",
+        note="floating-point evaluation of ref/d_lat is modelled by exact rationals; generators stay 1e-9 inside the open box.",
+        design="8 C04, 11.2", technique="Lean 4 proof (floor algebra over Q) + exact-rational correspondence"),
+    "C05": dict(
+        text="Model of bds06.surface_position (nearest-candidate hemisphere and circular quadrant choice after fix 4810080); theorems in Properties/C05.lean "
+             "(surface_requires_ref, latitude recovery, hemisphere and quadrant choice). Tie: dense near lat 0, lon 0/+-90/+-180, NL transitions; receiver up to 45 NM in 16 directions. "
+             "One open finding (target exactly at the north pole) is reported as KNOWN-FINDING.",
+        note="as C03.", design="8 C05", technique="Lean 4 proof + exact-rational correspondence"),
+    "C06": dict(
+        text="Theorems on the model for all rational latitudes: the transition table is well formed (58 strictly increasing enclosures of width 1e-12), cprNL equals the staircase "
+             "(the two isclose short-cuts agree with it), is even, antitone in |lat|, in [1,59], 59 at 0, 2 up to and including 87 and 1 beyond. "
+             "Tie: real cprNL on a 0.002-degree grid (0.0005 thorough) plus every double within +-96 (256) ulp of each signed transition, 0, +-87, +-90.",
+        note="that the committed enclosures contain the true transition latitudes rests on a 60-digit mpmath computation (not a theorem); float evaluation within 1e-9 degree of a transition may return either neighbour.",
+        design="8 C06", technique="Lean 4 proof (staircase laws over Q) + grid/ulp correspondence"),
+    "C12": dict(
+        text="Theorems: EMPTY for an all-zero MB field, DF17 register by type code (table pinned), infer = filter of the nine rule results (by definition of the model). "
+             "Tie and spec oracle: validly encoded in-envelope registers are reported (completeness), each status/reserved-bit violation excludes the register (soundness), "
+             "thresholds +-1 LSB, DF20 altitude cross-check through the Float aero model, infer consistent with isXX on random payloads, mrar both.",
+        note="is60's altitude cross-check and is50or60 use floating point (aero); is50or60 is exercised on the real code only.",
+        design="8 C12", technique="Lean 4 proof + boundary-directed correspondence"),
+    "C16": dict(
+        text="Theorems (33, Properties/C16.lean): feeding any chunking of any byte stream to the Beast or Skysense reader yields the same messages and final buffer as one read of the "
+             "whole stream (unconditional); the same for AVR raw on streams in which every ';' closes a '*' (the unconditional raw statement is refuted by a proved counter-example); "
+             "well-formed Beast/raw frame sequences come out exactly, unescaped, in order, once; NetSource conservation (sent ++ pending = filter, per class, in order; sends iff >= 2 ADS-B waiting). "
+             "Tie: every single cut, double cuts, multi cuts down to 1 byte on streams with 0x1A forced everywhere.",
+        note="time.time() stamps and ZeroMQ are not modelled; readers are entered at self.buffer.",
+        design="8 C16, 11.3", technique="Lean 4 proof (induction over chunk lists, resumable-scan lemma) + exhaustive-cut correspondence"),
+    "C17": dict(
+        text="Model of Decode.process_raw projected on keys/live/frames/tpos/lat/lon/version/NIC state; theorem stale_removed (nothing older than cache_timeout survives a call); "
+             "further invariants in progress. Tie: 1200 random histories (30k thorough) with state compared after every call, and the property predicate "
+             "(no exception, 59/61 s staleness, Comm-B gating, 0.001-degree positions against the true trajectory) evaluated on the real code.",
+        note="'<= 600 kt and < 180 s / < 10 s => inside the decode boxes' is geometry (trusted-base item 6); longitude tolerance is max(0.001, half a step) where NL-i = 1.",
+        design="8 C17", technique="Lean 4 proof (invariants of the step function) + history correspondence"),
+    "C19": dict(
+        text="Model of _process_buffer over rational samples; theorem checkMsg_df17_crc0 (a DF17 frame passes only with zero checksum; with C01 this is the true remainder). "
+             "Tie: synthetic PPM buffers on a dyadic grid (contents x offsets x amplitudes x noise x spacing) compared sample-exactly with the model; frames with noise ratio <= 0.19 are "
+             "all recovered; the 10-14 dB band is an open finding reported as KNOWN-FINDING.",
+        note="numpy mean/min and float comparisons are modelled exactly on the dyadic grid.",
+        design="8 C19", technique="Lean 4 proof + synthetic-signal correspondence"),
+    "C20": dict(
+        text="One polymorphic model of aero.py; 59 theorems over the reals: positivity, all eight inverse pairs, strict monotonicity of all conversions, TAS>=EAS and CAS>=EAS for H>=0 (Jensen), "
+             "sea-level identities (|CAS-V| <= 2e-8 V because rho0*R*T0 != p0), continuity incl. the tropopause, distance symmetry = arccos of the haversine-equivalent cosine, bearing in [0,360). "
+             "Tie: the same definition instantiated at Float, compared with numpy to 1e-9 on speed x altitude grids and coordinate pairs; 0.1% ISA check against the closed form.",
+        note="IEEE rounding / libm are not modelled (Float instance is compared, real instance is proved); 0.1% ISA agreement is a numeric check, not a theorem.",
+        design="8 C20", technique="Lean 4 + Mathlib proof over R + Float-instance correspondence"),
 }
 
 
